@@ -727,8 +727,13 @@ impl Model {
                         match self.string_expire(unit, v) {
                             Ok(d) => Some(d),
                             Err(e) => {
-                                // a WRONGTYPE (GET option) can apply too; Redis validates the time first
-                                return e;
+                                // a WRONGTYPE (GET option) can apply too; which of the two errors
+                                // wins is not documented
+                                return if get && self.str_of(key).is_err() {
+                                    Expect::AnyError { rule: "expire-argument+wrongtype" }
+                                } else {
+                                    e
+                                };
                             }
                         }
                     }
@@ -1077,9 +1082,11 @@ impl Model {
                 };
                 let incr = classify_float(&a[2], false);
                 match (base, incr) {
-                    (Fl::Invalid, _) | (Fl::Nan, _) => {
-                        err("ERR", Some("ERR value is not a valid float"), "not-float")
-                    }
+                    (Fl::Invalid, Fl::Num(_)) => err("ERR", Some("ERR value is not a valid float"), "not-float"),
+                    // two errors apply (value and increment): an ERR, which text is not asserted
+                    (Fl::Invalid, _) => err("ERR", None, "not-float"),
+                    // a stored "nan": an error for certain, which of the two texts is not asserted
+                    (Fl::Nan, _) => err("ERR", None, "not-float-nan"),
                     (Fl::Unsure, _) | (_, Fl::Unsure) => unspecified_key(key, "float-outside-asserted-domain"),
                     (_, Fl::Invalid) | (_, Fl::Nan) => err("ERR", None, "float-argument"),
                     (Fl::Inf(_), _) | (_, Fl::Inf(_)) => err("ERR", None, "float-nan-or-infinity"),
@@ -1189,6 +1196,9 @@ impl Model {
                         let ms = (*d - self.now).max(0);
                         if name == "PTTL" {
                             int(ms)
+                        } else if ms > i64::MAX - 1000 {
+                            // Redis' own (ttl+500)/1000 overflows here: not asserted
+                            unspecified("ttl-rounding-overflow")
                         } else {
                             int((ms + 500) / 1000)
                         }
